@@ -586,6 +586,30 @@ class Facts:
             raise AnchorMissing("function `%s` not found (matches: %d) in %s-form facts" % (short, len(cands) or len(fs), form))
         return fs[0]
 
+    def method(self, self_adt, name, trait=None, form="P"):
+        """function `name` of an impl whose self type's ADT path is `self_adt` (generics ignored); `trait` = None for
+        inherent impls, a trait path suffix (e.g. 'Future::poll' -> 'Future') otherwise.  Exactly one must exist."""
+        tab = self.P if form == "P" else self.E
+        out = []
+        for f in tab.values():
+            if f.kind not in ("fn", "assoc_fn") or not f.impl:
+                continue
+            st = f.self_ty.split("<")[0]
+            if st != self_adt:
+                continue
+            if f.id.rsplit("::", 1)[-1] != name:
+                continue
+            tr = f.impl_trait
+            if trait is None and tr is not None:
+                continue
+            if trait is not None and (tr is None or not (tr == trait or tr.endswith("::" + trait))):
+                continue
+            out.append(f)
+        if len(out) != 1:
+            raise AnchorMissing("method `%s` of `%s`%s not found (matches: %d) in %s-form facts" % (
+                name, self_adt, " as " + trait if trait else "", len(out), form))
+        return out[0]
+
     def fn_opt(self, short, form="P"):
         try:
             return self.fn(short, form)
